@@ -980,3 +980,27 @@ func SpecContains(s string, sub string) bool { return false }
 //@   requires nonnil: rf != nil && cli != nil
 //@   modifies heap
 //@   assert at call handleResp: a_refusal_received_from_the_leader_clears_the_copy_it_refers_to: resp != nil ==> len(args) == 1
+
+// ---- the memory cache keeps only a completely received snapshot on offer (C05, C16) -----------
+func SpecRdbBuffered(r *memoryRdb) int64 { panic("abstract spec function") }
+
+//@ spec SpecRdbBuffered abstract
+//@ func memoryRdb.bufferedSize(self) (n)
+//@   trusted sums the lengths of the snapshot's segments (abstract: SpecRdbBuffered)
+//@   modifies nothing
+//@   ensures sum: n == SpecRdbBuffered(self)
+//@ func memorySegment.close(self, err)
+//@   trusted frame: ends the segment's blob and wakes writers waiting for space
+//@ func MemoryChannel.signalSpaceLocked(self)
+//@   trusted frame
+//@ func MemoryRdbWriter.currentSegment(self) (seg)
+//@   trusted frame (atomic load)
+//@   modifies nothing
+
+//@ func MemoryChannel.finishRdb
+//@   arith int
+//@   properties C05 C16
+//@   replay syncer_incompleteSnapshotOffered
+//@   requires nonnil: mc != nil && writer != nil && writer.rdb != nil
+//@   modifies heap
+//@   ensures only_a_completely_received_snapshot_stays_on_offer: mc.rdb != nil && mc.rdb == old(writer.rdb) ==> SpecRdbBuffered(old(writer.rdb)) == old(writer.rdb.size)
